@@ -5,8 +5,8 @@ C34 — model of AuthorizeTierOperation
 Two layers:
 * the decision: three queries to the underlying authorizer (GET on the tier; the verb on the
   tier-scoped resource under the request's name; the verb under `<tier>.*`), run by three
-  goroutines that each store a decision into their own variable and ALL store the returned
-  error into the shared `err`; after the join the request is allowed iff
+  goroutines that each store a decision into their own variable (the returned error goes into a
+  goroutine-LOCAL `err` and is only logged); after the join the request is allowed iff
   `getTier = Allow ∧ (policy = Allow ∨ wildcard = Allow)`.  Goroutines are modelled as one
   atomic step each (sequentially consistent interleaving = an order of the three steps).
 * the fork-join access structure (`Program`): per goroutine the captured variables written /
@@ -33,16 +33,16 @@ structure Vars where
   getTier : Decision := .deny
   policy : Decision := .deny
   wildcard : Decision := .deny
-  err : Bool := false
 deriving Repr, DecidableEq
 
 /-- Goroutine `g` (0 = tier GET, 1 = policy name, 2 = tier wildcard), as one atomic step:
-`decisionX, _, err = a.Authorize(ctx, attrs)`. -/
+`var err error; decisionX, _, err = a.Authorize(ctx, attrs)` — `err` is local to the goroutine
+and only logged, so the step's effect on the shared variables is the decision store. -/
 def runG (ans : Nat → Answer) (g : Nat) (v : Vars) : Vars :=
   match g with
-  | 0 => { v with getTier := (ans 0).d, err := (ans 0).err }
-  | 1 => { v with policy := (ans 1).d, err := (ans 1).err }
-  | 2 => { v with wildcard := (ans 2).d, err := (ans 2).err }
+  | 0 => { v with getTier := (ans 0).d }
+  | 1 => { v with policy := (ans 1).d }
+  | 2 => { v with wildcard := (ans 2).d }
   | _ => v
 
 /-- A schedule = the order in which the three stores happen. -/
@@ -107,20 +107,48 @@ def touches (a : Accesses) : List Nat := a.writes ++ a.reads
 def racyVars (a b : Accesses) : List Nat :=
   (a.writes.filter (fun x => (touches b).contains x)) ++ (b.writes.filter (fun x => a.reads.contains x))
 
-def pairsOf : List (Nat × Accesses) → List ((Nat × Accesses) × (Nat × Accesses))
-  | [] => []
-  | x :: xs => xs.map (fun y => (x, y)) ++ pairsOf xs
-
-/-- All data races of the fork-join program: goroutine/goroutine pairs, and main segment `k`
-against the goroutines already started (indices `≤ k`). Sync objects (`wg`) are never assigned,
-so they do not show up as writes. -/
+/-- All data races of the fork-join program: goroutine/goroutine pairs `i < j`, and main segment
+`k` against the goroutines already started (indices `≤ k`).  Sync objects (`wg`) are never
+assigned, so they do not show up as writes. -/
 def conflicts (P : Program) : List Conflict :=
-  let gs := P.goroutines.zipIdx.map (fun (a, i) => (i, a))
-  let gg := (pairsOf gs).flatMap (fun (x, y) => (racyVars x.2 y.2).map (fun v => ⟨v, x.1, y.1⟩))
-  let mg := P.mainBetween.zipIdx.flatMap (fun (m, k) =>
-    (gs.filter (fun g => g.1 ≤ k)).flatMap (fun g => (racyVars m g.2).map (fun v => ⟨v, 100 + k, g.1⟩)))
+  let gs := P.goroutines.zipIdx
+  let gg := gs.flatMap (fun x => gs.flatMap (fun y =>
+    if x.2 < y.2 then (racyVars x.1 y.1).map (fun v => ⟨v, x.2, y.2⟩) else []))
+  let mg := P.mainBetween.zipIdx.flatMap (fun m =>
+    gs.flatMap (fun g => if g.2 ≤ m.2 then (racyVars m.1 g.1).map (fun v => ⟨v, 100 + m.2, g.2⟩) else []))
   gg ++ mg
 
 def raceFree (P : Program) : Bool := (conflicts P).isEmpty
+
+/-! ## semantics of arbitrary access programs (for the theorem "no conflicts ⇒ schedule-deterministic")
+
+A goroutine is a list of atomic steps `target := f (values of deps)` (local computation is folded
+into `f`; values are `Nat`, i.e. any encodable data).  A trace is a list of events (goroutine tag,
+step); it is an interleaving of `progs` when its projection onto every goroutine is that
+goroutine's step list (program order preserved). -/
+
+structure Step where
+  target : Nat
+  deps : List Nat
+  f : List Nat → Nat
+
+abbrev Store := Nat → Nat
+
+def Step.exec (s : Step) (σ : Store) : Store :=
+  fun x => if x = s.target then s.f (s.deps.map σ) else σ x
+
+abbrev Event := Nat × Step
+
+def run (tr : List Event) (σ : Store) : Store := tr.foldl (fun σ e => e.2.exec σ) σ
+
+def proj (g : Nat) : List Event → List Step
+  | [] => []
+  | e :: t => if e.1 = g then e.2 :: proj g t else proj g t
+
+def IsInterleaving (progs : List (List Step)) (tr : List Event) : Prop :=
+  ∀ g, proj g tr = progs.getD g []
+
+/-- The variables a step list writes and reads. -/
+def accessesOf (p : List Step) : Accesses := ⟨p.map (·.target), p.flatMap (·.deps)⟩
 
 end CalicoVerif.C34
